@@ -524,6 +524,24 @@ pub fn build<G: GraphLike>(d: &Diag, plan: &IdPlan) -> (G, Vec<V>) {
             g.add_edge_with_type(ids[a], ids[b], et);
         }
     }
+    // a plan with a shuffled edge order may also reach the diagram through some editing
+    // history that leaves it unchanged: a refused insertion of a taken name, a scaffold edge
+    // added and removed, an edge type toggled twice, a scaffold vertex added and removed
+    if plan.edge_order != 0 && plan.edge_order & 4 == 4 && n > 0 {
+        let _ = g.add_named_vertex_with_data(ids[0], mvert_data(&d.verts[0]));
+        if let Some(&(a, b, _)) = d.edges.first() {
+            g.toggle_edge_type(ids[a], ids[b]);
+            g.toggle_edge_type(ids[b], ids[a]);
+        }
+        let free = (0..n).flat_map(|a| ((a + 1)..n).map(move |b| (a, b))).find(|&(a, b)| !d.has_edge(a, b));
+        if let Some((a, b)) = free {
+            g.add_edge_with_type(ids[a], ids[b], EType::H);
+            g.remove_edge(ids[b], ids[a]);
+        }
+        let t = g.add_vertex(VType::X);
+        g.add_edge_with_type(t, ids[n - 1], EType::N);
+        g.remove_vertex(t);
+    }
     g.set_inputs(d.inputs.iter().map(|&i| ids[i]).collect());
     g.set_outputs(d.outputs.iter().map(|&i| ids[i]).collect());
     *g.scalar_mut() = mscalar_to_q(&d.scalar);
